@@ -2102,8 +2102,17 @@ static bool parse_ignored(TokenContext &ctx, Chunk &pc)
    }
    ctx.restore();
 
-   // parse off whitespace leading to the comment
-   if (parse_whitespace(ctx, pc))
+   // parse off whitespace leading to the comment; in front of anything else
+   // the whitespace is part of the ignored line
+   size_t ws_len = 0;
+
+   while (unc_isspace(ctx.peek(ws_len)))
+   {
+      ws_len++;
+   }
+
+   if (  ctx.peek(ws_len) == '/'
+      && parse_whitespace(ctx, pc))
    {
       pc.SetType(CT_IGNORED);
       return(true);
